@@ -598,6 +598,15 @@ class PolyFacet:
         if arr.op == "Scatter":
             base, idx, val = arr.args
             if not self.g.same(idx, mask):
+                # a store under the complement of the mask (x[~m] = ...) leaves the elements selected by m alone: the
+                # load sees the version before it
+                def negation_of(a_, b_):
+                    return a_.op == "UnaryOp" and a_.attr in ("Invert", "Not") and self.g.same(a_.args[0], b_)
+                if negation_of(idx, mask) or negation_of(mask, idx):
+                    fw = self._forward(base, mask, depth + 1)
+                    if fw is not None:
+                        return fw
+                    return self.of(self.I.mk("Subscript", (base, mask), None, arr.site))
                 return None
             # for an augmented store (x[m] *= f) the interpreter records the complete new value old*f
             return self.of(val)
